@@ -36,6 +36,7 @@ def oracle_pass(chk, scripts, traces, props, pristine=False):
         tainted = False
         reinstated = False
         lost_at = {}
+        had_cpus = {}
         for rec in recs:
             ev = sc['events'][rec['seq']] if rec['seq'] >= 0 else {}
             if ev.get('op') == 'Reconfigure' and rec['reply']['class'] == 'ok' and ev['config'] != '__CURRENT__':
@@ -65,7 +66,24 @@ def oracle_pass(chk, scripts, traces, props, pristine=False):
             if ev.get('op') in ('Reconfigure', 'Restart'):
                 reinstated = True
             if not reinstated:
-                fs = [dict(f, sig=f['sig'] + ':by-allocation') if f['sig'] == 'descendant-of-slicing-grant' else f for f in fs]
+                fs = [dict(f, sig=f['sig'] + ':by-allocation') if f['sig'] == 'descendant-of-slicing-grant' and f['clause'] != 'nonempty-cpuset' else f for f in fs]
+            # C03_nonempty_cpuset_once_placed: K10 is a matter of placement only.  An empty cpuset is the known finding
+            # when the container never had a CPU since it was placed where it is (a placement = its grant is new or
+            # changed, or the request re-places every grant); a container that HAD a non-empty cpuset under its
+            # present grant and lost it was starved by somebody else's allocation or reinstatement, which the theorem
+            # excludes: never known
+            replaced_all = rec['op'] in ('Reconfigure', 'Restart', 'Setup', 'Synchronize')
+            cachenow = {c['id']: c for c in rec['cache']}
+            for g0 in ((rec.get('ta') or {}).get('grants') or []):
+                pg0 = (prevg or {}).get(g0['id'])
+                if replaced_all or pg0 is None or (pg0['pool'], pg0['exclusive'], pg0['portion'], pg0['cputype']) != (g0['pool'], g0['exclusive'], g0['portion'], g0['cputype']):
+                    had_cpus.pop(g0['id'], None)
+                if (cachenow.get(g0['id']) or {}).get('cpus'):
+                    had_cpus[g0['id']] = True
+            for cid0 in list(had_cpus):
+                if cid0 not in nowg:
+                    had_cpus.pop(cid0)
+            fs = [dict(f, sig=f['sig'] + ':starved-after-placement') if f['clause'] == 'nonempty-cpuset' and f['sig'] != 'after-failed-revert' and had_cpus.get(f.get('ctr')) else f for f in fs]
             prevg = {g['id']: g for g in ((rec.get('ta') or {}).get('grants') or [])}
             fs += ret.step(ev, rec)
             if rec['seq'] >= 0:
